@@ -272,6 +272,12 @@ pub fn run_case_inproc(case: &CorruptCase, wroot: &Path, stats: &mut Stats, star
             mask: *rng.pick(&MASKS),
           });
         }
+        // the very ends of every file, always
+        for len in [data.len() - 1, data.len().saturating_sub(2), data.len().saturating_sub(4), 0, 1] {
+          if len < data.len() {
+            muts.push(Mutation::Truncate { file: name.clone(), len });
+          }
+        }
         for _ in 0..(case.per_file - nflip) {
           // bias to the ends
           let len = match rng.below(4) {
